@@ -942,10 +942,13 @@ class SpreadSkill(object):
         if len(qs) < 2:
             return None
         case["opt"]["q"] = [qs[0], qs[-1]]
-        return ["-m", "spreadskill", "-q", edges_arg([qs[0], qs[-1]]), "-r", edges_arg(case["opt"]["edges"])]
+        order = case["opt"].get("order", 0)
+        given = [qs[0], qs[-1]] if order == 0 else ([qs[-1], qs[0]] if order == 1 or len(qs) < 3 else [qs[1], qs[0], qs[-1]])
+        return ["-m", "spreadskill", "-q", edges_arg(given), "-r", edges_arg(case["opt"]["edges"])]
 
     def options(self, draw, spec):
-        return {"edges": [0.0, 0.5, 1.0, 2.0, 4.0, 8.0, 40.0]}
+        # the lower and upper quantile are the smallest and largest level given, in whatever order
+        return {"edges": [0.0, 0.5, 1.0, 2.0, 4.0, 8.0, 40.0], "order": draw(st.sampled_from([0, 1, 2]))}
 
     def verify(self, J, dump, ds, spec, case, names):
         ax = data_axes(dump)[0]
@@ -1324,7 +1327,13 @@ def check_diagram(case, ctx):
     if not dump["axes"]:
         J.fail("no-axes", "the figure has no axes")
         return
-    pop = info["cls"].verify(J, dump, ds, spec, case, names)
+    try:
+        pop = info["cls"].verify(J, dump, ds, spec, case, names)
+    except (IndexError, KeyError, TypeError, ValueError, ZeroDivisionError) as e:
+        # the figure does not have the structure this diagram is known to draw (axes, series, bars)
+        import traceback
+        J.fail("unexpected-structure", "%s: %s\n%s" % (type(e).__name__, e, traceback.format_exc()[-400:]))
+        return
     if len(names) >= 2 and pop and pop >= 2:
         ctx.nt((name, case["opt"], ds.times, ds.leads, ds.ids, [dd["fcst"] for dd in spec["inputs"]], [dd["obs"] for dd in spec["inputs"]]))
         ctx.label("nontrivial")
